@@ -82,7 +82,7 @@ def minimize(f, care, fol):
     # assert covers(bab.best_cover, f, prm, fol)
     cover, _ = _traverse(x, y, path_cost, bab, fol)
     if cover is None:
-        cover, _ = _some_cover(x, y, prm.p_leq_q, p_to_q, fol)
+        cover, _ = _some_cover(x, y, prm.p_leq_q, prm.p_to_q, fol)
     assert cover is not None
     cover = unfloors(cover, y, fol, bab)
     assert_is_a_cover_from_y(
